@@ -3,9 +3,12 @@ package main
 import (
 	"fmt"
 	"math/rand"
+	"sort"
 
 	"deps.dev/util/semver"
 	"github.com/google/osv-scalibr/guidedremediation/upgrade"
+
+	cf "verifharness/internal/coqfmt"
 )
 
 // streamAllows: Level.Allows, exhaustively: the four levels plus an invalid one x the seven Diff values.
@@ -48,4 +51,70 @@ func streamConfig(o *output, r *rand.Rand, n int) {
 		o.add("gcase", fmt.Sprintf("{| g_cfg := %s; g_name := %s; g_observed := %s |}", cfgCoq(names, cfg), names.n(q), levelCoq(got)),
 			map[string]any{"strings": strs, "config": cfgJSON(cfg), "query": q, "observed": levelCoq(got), "nontrivial": true})
 	}
+}
+
+// streamConfigParse: upgrade.NewConfigFromStrings followed by Get, on spec strings with capitals, scopes,
+// Maven group:artifact names (containing ':'), mixed-case / padded / invalid levels, duplicates and
+// defaults; queried with the names as written, case-folded variants, unknown names and "".
+func streamConfigParse(o *output, r *rand.Rand, n int) {
+	names := []string{"JSONStream", "jsonstream", "@Scope/Pkg", "@scope/pkg", "org.x:pa", "Org.X:PA", "lodash", "a:b:c", ""}
+	levels := []string{"major", "minor", "patch", "none", "none", "minor", "None", "MAJOR", " minor", "patch ", "bogus", ""}
+	// every (name, level word) pair on its own, then random combinations
+	var fixed [][]string
+	for _, nm := range names {
+		for _, lv := range []string{"major", "minor", "patch", "none", "None", " none"} {
+			fixed = append(fixed, []string{nm + ":" + lv})
+		}
+	}
+	fixed = append(fixed, []string{"none"}, []string{":none"}, []string{"JSONStream:none", "patch"}, []string{"org.x:pa:minor", "none"},
+		[]string{"lodash:none", "lodash:major"}, []string{"lodash:major", "lodash:bogus"}, []string{})
+	emit := func(specs []string, q string) {
+		got := upgrade.NewConfigFromStrings(specs).Get(q)
+		var sl []string
+		for _, sp := range specs {
+			sl = append(sl, cf.Str(sp))
+		}
+		o.add("pcase", fmt.Sprintf("{| p_specs := %s; p_query := %s; p_observed := %s |}", cf.List(sl), cf.Str(q), levelCoq(got)),
+			map[string]any{"specs": specs, "query": q, "observed": levelCoq(got), "nontrivial": len(specs) > 0})
+	}
+	for _, specs := range fixed {
+		for _, q := range names {
+			emit(specs, q)
+		}
+	}
+	for i := 0; i < n; i++ {
+		var specs []string
+		k := r.Intn(5)
+		for j := 0; j < k; j++ {
+			nm := pick(r, names)
+			lv := pick(r, levels)
+			switch r.Intn(6) {
+			case 0:
+				specs = append(specs, lv) // a default without colon
+			default:
+				specs = append(specs, nm+":"+lv)
+			}
+		}
+		emit(specs, pick(r, names))
+	}
+}
+
+// viaStrings rebuilds a configuration the way a caller with command-line flags does: as "pkg:level"
+// spec strings through upgrade.NewConfigFromStrings. cfg itself stays the INTENDED configuration that the
+// oracle and the models use.
+func viaStrings(cfg upgrade.Config) upgrade.Config {
+	var specs []string
+	for k, l := range cfg {
+		w := map[upgrade.Level]string{upgrade.Major: "major", upgrade.Minor: "minor", upgrade.Patch: "patch", upgrade.None: "none"}[l]
+		if w == "" {
+			return cfg // an invalid level cannot be written as a spec
+		}
+		if k == "" {
+			specs = append(specs, w)
+		} else {
+			specs = append(specs, k+":"+w)
+		}
+	}
+	sort.Strings(specs)
+	return upgrade.NewConfigFromStrings(specs)
 }
